@@ -342,7 +342,7 @@ def _str_neighbours(s):
 
 NUM_POOL = [0, 1, 2, 3, 4, 5, 6, 9, 10, 11, 17, 18, 19, 21, 100, -1, -7, 0.5, 1.5, 2.5, -2.5, 3.14, 18.0]
 STR_POOL = ["a", "b", "c", "xyz", "US", "CA", "FR", "", "A", "b1", "zz", "free", "pro", "x"]
-ANY_POOL = ["u1", "u2", "user-42", 7, 42, 3.5, "", "abc", 0, True, None, "00123", -1, 1e300]
+ANY_POOL = ["u1", "u2", "user-42", 7, 42, 3.5, "", "abc", 0, True, None, "00123", -1, 1e300, b"u1", b"user-42", b""]
 
 
 def interesting_values(prog, classes):
